@@ -12,10 +12,11 @@ for d in sorted(glob.glob(os.path.join(V, 'seeded', '*'))):
     if not os.path.exists(p): continue
     m = json.load(open(p)); c = m.get('confirmed', {})
     checks = c.get('checks', {})
-    caught = sorted(k for k, v in checks.items() if v.get('exit') == 1)
-    missed = sorted(k for k, v in checks.items() if v.get('exit') == 0)
+    caught = sorted('%s (%s)' % (k, t) for k, tv in checks.items() for t, v in tv.items() if v.get('exit') == 1)
+    caught = [x for x in caught if not (x.endswith('(thorough)') and x.replace('(thorough)', '(quick)') in caught)]
+    missed = sorted(k for k, tv in checks.items() if all(v.get('exit') == 0 for v in tv.values()))
     if c.get('note'): res = c['note']
-    elif caught: res = 'caught by ' + ', '.join('%s (%s)' % (k, checks[k].get('tier', 'quick')) for k in caught)
+    elif caught: res = 'caught by ' + ', '.join(caught)
     elif missed: res = 'MISSED by ' + ', '.join(missed)
     else: res = 'not evaluated'
     print('| %s | %s | %s | %s |' % (os.path.basename(d), short(m['what'], 150).replace('|', '/'), short(m['needs'], 130).replace('|', '/'), res))
